@@ -81,6 +81,11 @@ func (c *compiler) makeConstant(i interface{}) []byte {
 	switch reflect.TypeOf(i).Kind() {
 	case reflect.Slice, reflect.Map:
 		hashable = false
+	case reflect.Float32, reflect.Float64:
+		// 0.0 and -0.0 are equal as map keys but are different constants.
+		if reflect.ValueOf(i).Float() == 0 {
+			hashable = false
+		}
 	}
 
 	if hashable {
